@@ -3,6 +3,7 @@
 inspired by:
 https://github.com/sutoiku/formula.js/blob/master/lib/statistical.js
 """
+import math
 import statistics
 from . import dispatcher
 from . import error
@@ -187,18 +188,16 @@ def SLOPE(*yx):
     ys = list(ys)
     xs = list(xs)
 
-    n = len(ys)
-    sum_x = sum(xs)
-    sum_y = sum(ys)
-    sum_x_sq = sum(x ** 2 for x in xs)
-    sum_xy = sum(x * y for x, y in zip(xs, ys))
-
-    denominator = (n * sum_x_sq) - (sum_x ** 2)
+    # deviations from the (exactly computed) means: the textbook n*sum(xy)-sum(x)*sum(y)
+    # form cancels catastrophically when the values are large compared with their spread
+    mean_x = statistics.mean(xs)
+    mean_y = statistics.mean(ys)
+    dxs = [x - mean_x for x in xs]
+    denominator = math.fsum(dx * dx for dx in dxs)
     if denominator == 0:
         return error.DIV_ZERO
 
-    slope = ((n * sum_xy) - (sum_x * sum_y)) / denominator
-    return slope
+    return math.fsum(dx * (y - mean_y) for dx, y in zip(dxs, ys)) / denominator
 
 
 @dispatcher.register_for('LARGE')
